@@ -1,10 +1,17 @@
 """Rules over the table pipeline shared by C02, C03, C08 and C09 (slicing cursors, index agreement,
-column removal, width provenance, attribute binding)."""
+column removal, width provenance, attribute binding).
+
+Most rules here are decided by *scenario execution* (class Scen at the end of this module): the function
+under analysis is interpreted (sa/dtab.py evaluates its syntax tree; nothing of the repository is
+imported or run) on a small mock table whose rows, columns, widths and attribute entries are all
+distinguishable, over every valuation of the configuration it reads.  The rule then checks what the
+function DOES with those rows/entries against the property (positive evidence -> violation); a
+construct outside the interpreter's subset is an analysis gap.  Two rules (column removal, body widths)
+keep a structural fallback for the case that the function cannot be interpreted."""
 from __future__ import annotations
 
 import ast
 
-from ..linform import linform, single_assign_env
 from ..pm import AnalysisError, dotted, unparse, walk_no_nested
 from ..report import Ctx
 
@@ -16,138 +23,511 @@ def anc(n, stop):
         p = getattr(p, "_parent", None)
 
 
+ABSTRACTION = ("abstract evaluation (sa/dtab.py + tablecore.Scen) of the function's syntax tree; nothing of the repository is imported, exec'd or eval'd. "
+               "Cell values, attribute entries, widths handed through and results of uninterpreted calls are opaque tagged atoms; conditions on "
+               "unknown configuration fork the evaluation and ALL valuations are enumerated; table shapes / page layouts / listed configurations are "
+               "fixed witnesses")
+
+
+def scenario_note(ctx: Ctx, rule: str, function: str, decided_for: str, witnesses: dict) -> None:
+    """state in the evidence what the scenario evaluation of `function` covers: an explain sentence, the bound as an assumption, counts in extra"""
+    seen = ctx.extra.setdefault("scenarios", {})
+    key = f"{rule} {function}"
+    if key in seen:
+        return
+    seen[key] = dict(witnesses)
+    ctx.explain(f"[{rule}] {function}: {ABSTRACTION}; decided {decided_for}; witness set {witnesses}; other shapes/configurations are not explored.")
+    ctx.assume(f"{rule} ({function}): the verdict is a bounded-witness verdict - it holds for every value of the tagged atoms on the listed shapes/configurations "
+               f"({witnesses}), not for all shapes; it relies on the function treating cell/attribute values opaquely (apart from `is None` / str())")
+    ctx.assume("scenario evaluation: a construct outside the evaluator's subset, a native error on a mock value, more than 24 undetermined conditions or "
+               "more than 512 valuations end in an analysis gap (or the structural fallback where one exists), never in a verdict")
+
+
 # ------------------------------------------------------------------ cursor partitions
+def _describe_rows(got: list, want: list) -> str:
+    lost = [r for r in want if r not in got]
+    dup = sorted({r for r in got if got.count(r) > 1})
+    if lost or dup:
+        return (f"rows {lost} lost" if lost else "") + (" and " if lost and dup else "") + (f"rows {dup} emitted more than once" if dup else "")
+    return f"rows emitted in the order {got}"
+
+
 def cursor_post_processing(ctx: Ctx, rule: str) -> None:
-    """_apply_data_post_processing: pages re-sliced from the reduced frame by a cursor"""
+    """_apply_data_post_processing: every page's data is re-cut from the column-reduced frame (and, with group_by, from the
+    restored frame) as consecutive slices of the pages' own heights.  Decided by interpreting the function on mock pages."""
     pm = ctx.pm
     fi = pm.func("UnifiedRTFEncoder._apply_data_post_processing")
-    loops = sorted((n for n in walk_no_nested(fi.node) if isinstance(n, ast.For) and unparse(n.iter) == "pages"), key=lambda n: n.lineno)
-    n_ok = 0
-    for lp in loops:
-        pv = lp.target.id if isinstance(lp.target, ast.Name) else "?"
-        slices = [c for c in ast.walk(lp) if isinstance(c, ast.Call) and isinstance(c.func, ast.Attribute) and c.func.attr == "slice"]
-        if not slices:
-            continue
-        sl = slices[0]
-        env = {unparse(a.targets[0]): a.value for a in ast.walk(lp) if isinstance(a, ast.Assign) and len(a.targets) == 1 and isinstance(a.targets[0], ast.Name)}
-        cur = unparse(sl.args[0]) if sl.args else "?"
-        length = sl.args[1] if len(sl.args) > 1 else None
-        while isinstance(length, ast.Name) and length.id in env:
-            length = env[length.id]
-        aug = [a for a in ast.walk(lp) if isinstance(a, ast.AugAssign) and unparse(a.target) == cur and isinstance(a.op, ast.Add)]
-        inc = aug[0].value if aug else None
-        while isinstance(inc, ast.Name) and inc.id in env:
-            inc = env[inc.id]
-        store = [a for a in ast.walk(lp) if isinstance(a, ast.Assign) and unparse(a.targets[0]) == f"{pv}.data" and any(x is sl for x in ast.walk(a.value))]
-        # initialisation to 0 before the loop
-        init = [a for a in walk_no_nested(fi.node) if isinstance(a, ast.Assign) and unparse(a.targets[0]) == cur and a.lineno < lp.lineno]
-        init_ok = bool(init) and unparse(init[-1].value) == "0"
-        len_txt, inc_txt = unparse(length), unparse(inc)
-        ok = len_txt == f"{pv}.data.height" and inc_txt == len_txt and len(aug) == 1 and store and init_ok and \
-            not any(isinstance(x, (ast.If, ast.Continue, ast.Break)) for s in lp.body for x in ast.walk(s))
-        order_ok = False
-        if store and aug:
-            order_ok = store[0].lineno < aug[0].lineno
-        src = unparse(sl.func.value)
-        ctx.instance(rule, fi.where(lp), f"cursor loop: {pv}.data = {src}.slice({cur}, {len_txt}); {cur} += {inc_txt}; init 0: {init_ok}")
-        if not (ok and order_ok):
-            ctx.violation(rule, fi.short, f"cursor {cur}: slice(len={len_txt}) += {inc_txt}", fi.where(lp),
-                          f"_apply_data_post_processing: pages are not re-cut from `{src}` as consecutive slices (cursor {cur} from 0, slice(cursor, page height), "
-                          "cursor advanced by the same height, unconditionally)")
-        else:
-            n_ok += 1
-    if n_ok < 1:
-        ctx.violation(rule, fi.short, f"cursor loops {n_ok}", fi.where(), "_apply_data_post_processing no longer re-slices the pages from the column-reduced frame by cumulative heights")
-    srcs = [unparse(c.func.value) for lp in loops for c in ast.walk(lp) if isinstance(c, ast.Call) and isinstance(c.func, ast.Attribute) and c.func.attr == "slice"]
-    if srcs[:1] != ["processed_df"]:
-        ctx.violation(rule, fi.short, "slice sources " + str(srcs), fi.where(), "page data is not re-cut from the column-reduced frame")
+    params = [a.arg for a in fi.node.args.args]
+    scenario_note(ctx, rule, "UnifiedRTFEncoder._apply_data_post_processing", "for every content of the frames",
+                  {"pages": 3, "page heights": [3, 1, 2], "reduced columns": 2, "group_by": ["unset", "set"], "evaluations": 2})
+    if len(params) < 4:
+        ctx.gap(rule, "_apply_data_post_processing: signature (self, pages, frame, body) not recognised")
+        return
+    heights = [3, 1, 2]
+    total = sum(heights)
+    n_runs = 0
+    for gb in (None, ["g"]):
+        pages, start = [], 0
+        for k, h in enumerate(heights):
+            pages.append(Obj(f"page{k}", data=Frame("paginated", range(start, start + h), ["g", "a", "b"])))
+            start += h
+        reduced = Frame("reduced", range(total), ["a", "b"])
+        body = Obj("rtf_body", group_by=gb)
+        sc = Scen(pm, frame_passthrough=("enhance_group_by", "restore_page_context"))
+        try:
+            runs = sc.runs(fi, {params[0]: Sym("self", fi.cls), params[1]: pages, params[2]: reduced, params[3]: body})
+        except AnalysisError as e:
+            ctx.gap(rule, f"_apply_data_post_processing could not be interpreted on mock pages: {e}")
+            return
+        for val, r in runs:
+            n_runs += 1
+            if r.raised:
+                ctx.gap(rule, f"_apply_data_post_processing raises {r.raised} on mock pages of heights {heights}")
+                continue
+            # the pages the run worked on are the (copied) first argument: recover them from the stores
+            final = {}
+            for m in r.trace:
+                if m.name == "store" and m.args[0] == "data" and isinstance(m.recv, Obj):
+                    final[m.recv.name] = m.args[1]
+            got_rows, tags, bad = [], set(), False
+            for k, h in enumerate(heights):
+                fr = final.get(f"page{k}")
+                if not isinstance(fr, Frame):
+                    bad = True
+                    break
+                got_rows.extend(fr.rows)
+                tags.add(fr.tag)
+            desc = f"group_by={'set' if gb else 'unset'}: pages of heights {heights} re-cut as {[final[f'page{k}'].rows for k in range(len(heights))] if not bad else '?'} from {sorted(tags)}"
+            ctx.instance(rule, fi.where(), "cursor re-slice, " + desc)
+            if bad:
+                ctx.gap(rule, "_apply_data_post_processing: no frame is stored into page.data on a mock page")
+                continue
+            if got_rows != list(range(total)):
+                ctx.violation(rule, fi.short, "cursor re-slice: " + _describe_rows(got_rows, list(range(total))), fi.where(),
+                              f"_apply_data_post_processing ({'with' if gb else 'without'} group_by): pages of heights {heights} are re-cut as rows "
+                              f"{[final[f'page{k}'].rows for k in range(len(heights))]}; {_describe_rows(got_rows, list(range(total)))} "
+                              "(pages must be consecutive slices: cursor from 0, slice(cursor, page height), cursor advanced by the same height)")
+            elif any(len(final[f"page{k}"].rows) != h for k, h in enumerate(heights)):
+                ctx.violation(rule, fi.short, "cursor re-slice: page heights changed", fi.where(), "_apply_data_post_processing moves rows from one page to another")
+            if tags == {"paginated"}:
+                ctx.violation(rule, fi.short, "slice sources " + str(sorted(tags)), fi.where(), "page data is not re-cut from the column-reduced frame")
+            elif not all("reduced" in t for t in tags):
+                ctx.gap(rule, f"_apply_data_post_processing: page data comes from {sorted(tags)}, which could not be traced to the column-reduced frame")
+            if any(final[f"page{k}"].cols != ["a", "b"] for k in range(len(heights))):
+                ctx.violation(rule, fi.short, "slice sources columns", fi.where(), "page data does not carry the displayed (reduced) columns")
+    if not n_runs:
+        ctx.gap(rule, "_apply_data_post_processing: no path could be interpreted")
+
+
+_BODY_SCENARIOS = (
+    ("two boundaries (one with, one without heading), one-row tail", 6,
+     [{"page_relative_row": 2, "group_values": {"g": "B"}}, {"page_relative_row": 5}]),
+    ("boundary at row 0, empty heading values, multi-row tail", 7,
+     [{"page_relative_row": 0, "group_values": {"g": "A"}}, {"page_relative_row": 3, "group_values": {}}, {"page_relative_row": 4, "group_values": {"g": "C"}}]),
+    ("single boundary before the last row", 5, [{"page_relative_row": 4, "group_values": {"g": "B"}}]),
+    ("no boundary", 4, []),
+)
 
 
 def cursor_render_body(ctx: Ctx, rule: str) -> None:
+    """_render_body: the page's rows reach TableAttributes._encode exactly once, in order, each segment with
+    row_offset = position of its first row in the page, and with the page's column widths.  Decided by interpreting
+    the function on mock pages with internal group boundaries, over every valuation of the configuration it reads."""
     pm = ctx.pm
     fi = pm.func("PageRenderer._render_body")
-    loops = [n for n in ast.walk(fi.node) if isinstance(n, ast.For) and unparse(n.iter) == "page.group_boundaries"]
-    if len(loops) != 1:
-        ctx.violation(rule, fi.short, "boundary loop", fi.where(), "_render_body no longer walks group boundaries in order")
+    params = [a.arg for a in fi.node.args.args]
+    scenario_note(ctx, rule, "PageRenderer._render_body", "for every cell content and every heading value",
+                  {"page layouts (rows, boundary rows)": [(n, [b["page_relative_row"] for b in bs]) for _t, n, bs in _BODY_SCENARIOS],
+                   "body configurations (new_page, pageby_row, body as list)": [(False, "column", False), (True, "column", False), (True, "first_row", False), (False, "column", True)],
+                   "evaluations": 4 * len(_BODY_SCENARIOS), "columns": 2})
+    if len(params) < 3:
+        ctx.gap(rule, "_render_body: signature (self, document, page) not recognised")
         return
-    lp = loops[0]
-    t = unparse(fi.node)
-    segs = [a for a in ast.walk(fi.node) if isinstance(a, ast.Assign) and unparse(a.targets[0]) == "segment"]
-    forms = sorted(unparse(a.value) for a in segs)
-    init = [a for a in ast.walk(fi.node) if isinstance(a, ast.Assign) and unparse(a.targets[0]) == "prev_row"]
-    vals = [unparse(a.value) for a in init]
-    ok_forms = forms == ["page_df[prev_row:]", "page_df[prev_row:page_rel_row]"]
-    ok_cursor = sorted(vals) == ["0", "page_rel_row"]
-    rel = next((unparse(a.value) for a in ast.walk(lp) if isinstance(a, ast.Assign) and unparse(a.targets[0]) == "page_rel_row"), "?")
-    tail_if = [n for n in ast.walk(fi.node) if isinstance(n, ast.If) and unparse(n.test) in ("prev_row < len(page_df)", "prev_row < page_df.height", "len(page_df) > prev_row")]
-    tail_ok = bool(tail_if) and tail_if[0].lineno > lp.lineno and not any(x is tail_if[0] for x in ast.walk(lp))
-    seg_guard = [n for n in ast.walk(lp) if isinstance(n, ast.If) and unparse(n.test) in ("page_rel_row > prev_row", "prev_row < page_rel_row")]
-    ctx.instance(rule, fi.where(lp), f"_render_body segments {forms}; cursor values {vals}; boundary row = {rel}; tail after loop under `{unparse(tail_if[0].test) if tail_if else '?'}`")
-    if not (ok_forms and ok_cursor and tail_ok and seg_guard and rel == "boundary['page_relative_row']"):
-        ctx.violation(rule, fi.short, f"segments {forms} cursor {vals} tail {bool(tail_ok)}", fi.where(lp),
-                      "_render_body does not cut the page into [prev:boundary) segments plus the tail [prev:] with prev starting at 0 and advancing to each boundary "
-                      "(rows are lost at the end of the page or duplicated)")
-    enc = [c for c in ast.walk(fi.node) if isinstance(c, ast.Call) and isinstance(c.func, ast.Attribute) and c.func.attr == "_encode"]
-    for c in enc:
-        a0 = unparse(c.args[0]) if c.args else "?"
-        ro = next((unparse(k.value) for k in c.keywords if k.arg == "row_offset"), "<default 0>")
-        want = {"segment": "prev_row", "page_df": "0"}.get(a0)
-        ctx.instance(rule, fi.where(c), f"_encode({a0}, col_widths, row_offset={ro})")
-        if want is None or ro != want:
-            ctx.violation(rule, fi.short, f"_encode({a0}, row_offset={ro})", fi.where(c), f"a segment starting at row `{want}` of the page is encoded with row_offset={ro}")
-        if len(c.args) < 2 or unparse(c.args[1]) != "col_widths":
-            ctx.violation(rule, fi.short, "_encode widths", fi.where(c), "a body segment is not encoded with the page's column widths")
-    if len(enc) != 3:
-        ctx.violation(rule, fi.short, f"_encode x{len(enc)}", fi.where(), "_render_body must encode: segments before boundaries, the tail, or the whole page (3 sites)")
+    dname, pname = params[1], params[2]
+    n_ok = 0
+    # configurations of the body: (new_page, pageby_row, body given as a list); concrete values, so that two differently written tests
+    # of the same setting cannot be answered inconsistently
+    configs = ((False, "column", False), (True, "column", False), (True, "first_row", False), (False, "column", True))
+    for (title, n, bounds), (new_page, pageby_row, as_list) in [(sc_, cf) for sc_ in _BODY_SCENARIOS for cf in configs]:
+        widths = [_Fr(3, 2), _Fr(4)]
+        title = f"{title}; new_page={new_page}, pageby_row={pageby_row!r}{', body list' if as_list else ''}"
+        body = Obj("rtf_body", cls="RTFBody", page_by=["g"], subline_by=None, group_by=None, new_page=new_page, pageby_row=pageby_row, as_colheader=True)
+        page_attrs = Obj("page_attrs", cls="RTFBody")
+        doc = Obj("document", cls="RTFDocument", rtf_body=[body] if as_list else body, df=Frame("table", range(40), ["g", "a", "b"]),
+                  rtf_page=Obj("rtf_page", cls="RTFPage", col_width=_Fr(19, 2), width=_Fr(17, 2)))
+        page = Obj("page", cls="PageContext", data=Frame("page", range(n), ["a", "b"]), group_boundaries=[dict(b) for b in bounds], col_widths=widths,
+                   pageby_header_info={"group_values": {"g": "A"}}, final_body_attrs=page_attrs, table_attrs=page_attrs, is_first_page=True, is_last_page=False,
+                   page_number=1, total_pages=2)
+        sc = Scen(pm, markers={"_encode": "list", "encode_spanning_row": "list"})
+        try:
+            runs = sc.runs(fi, {params[0]: Sym("self", fi.cls), dname: doc, pname: page})
+        except AnalysisError as e:
+            ctx.gap(rule, f"_render_body could not be interpreted on a mock page ({title}): {e}")
+            continue
+        segs_seen = set()
+        for val, r in runs:
+            if r.raised:
+                ctx.gap(rule, f"_render_body raises {r.raised} on a mock page ({title})")
+                continue
+            out = r.ret
+            if not isinstance(out, list):
+                ctx.gap(rule, f"_render_body: result `{out!r}`[:60] on a mock page is not a list of row chunks")
+                continue
+            encs = [m for m in out if isinstance(m, Mark) and m.name == "_encode"]
+            other = [m for m in out if not (isinstance(m, Mark) and m.name in ("_encode", "encode_spanning_row"))]
+            if other:
+                ctx.gap(rule, f"_render_body: element `{other[0]!r}`[:60] of the result could not be traced to _encode / encode_spanning_row")
+                continue
+            got, unknown = [], False
+            for m in encs:
+                fr = m.arg(0, "df")
+                if not isinstance(fr, Frame) or fr.tag != "page":
+                    unknown = True
+                    break
+                got.extend(fr.rows)
+                off = m.arg(2, "row_offset", 0)
+                w = m.arg(1, "col_widths")
+                segs_seen.add((tuple(fr.rows), repr(off)))
+                if isinstance(off, Sym) or isinstance(w, Sym):
+                    unknown = True
+                    break
+                if fr.rows and off != fr.rows[0]:
+                    ctx.violation(rule, fi.short, f"_encode(rows {fr.rows[0]}..{fr.rows[-1]}, row_offset={off})", fi.where(),
+                                  f"_render_body: a segment starting at row {fr.rows[0]} of the page is encoded with row_offset={off} ({title})")
+                if w != widths:
+                    ctx.violation(rule, fi.short, "_encode widths", fi.where(), f"_render_body: a body segment is not encoded with the page's column widths but with `{w!r}`")
+                if fr.cols != ["a", "b"]:
+                    ctx.violation(rule, fi.short, "_encode columns", fi.where(), "_render_body: a body segment does not carry the page's columns")
+            if unknown:
+                ctx.gap(rule, f"_render_body: an _encode call on a mock page has arguments that could not be determined ({title})")
+                continue
+            if got != list(range(n)):
+                ctx.violation(rule, fi.short, "segments: " + _describe_rows(got, list(range(n))), fi.where(),
+                              f"_render_body does not cut the page into [prev:boundary) segments plus the tail: on a page of {n} rows with boundaries at "
+                              f"{[b['page_relative_row'] for b in bounds]} ({title}) {_describe_rows(got, list(range(n)))}")
+            else:
+                n_ok += 1
+        ctx.instance(rule, fi.where(), f"_render_body on a {n}-row page, {title}: {len(runs)} configuration valuations; (rows, row_offset) handed to _encode: "
+                     f"{sorted(segs_seen)[:6]}")
+    if not n_ok and not ctx.deferred_errors:
+        ctx.gap(rule, "_render_body: no scenario could be evaluated")
+
+
+# ------------------------------------------------------------------ model construction scenarios
+T_ROWS = 7          # rows of the mock table
+SEG = (3, 4, 5)     # the segment handed to _encode: table rows 3..5, so row_offset = 3
+SHAPES = {"matrix": (T_ROWS, 2), "row vector": (1, 2), "scalar": (1, 1)}
+
+
+def _attr_default(pm, cls, shape):
+    def default(name):
+        if pm.find_method(cls, name) is not None or name.startswith("__"):
+            return NotImplemented
+        return matrix(name, *shape)
+    return default
+
+
+def expected_entry(name, shape, i, j):
+    """BroadcastValue's documented rule: value[r % R][c % C]"""
+    return AV(name, i % shape[0], j % shape[1])
+
+
+def model_fields(o, want_cls):
+    """{field: value} of a constructed model object (None if it is not one)"""
+    if isinstance(o, Obj) and o.cls == want_cls:
+        return o.attrs
+    return None
+
+
+def encode_scenarios(pm):
+    """interpret TableAttributes._encode on a 3-row segment (table rows 3..5, row_offset=3) of a 7-row, 2-column table whose
+    attribute entries are all distinguishable; three attribute shapes x (cell_nrow unset/set).
+    -> list of dicts {shape, nrow_set, error | rows: [Row Obj...], df, widths, other}"""
+    cached = getattr(pm, "_encode_scenarios", None)
+    if cached is not None:
+        return cached
+    fi = pm.func("TableAttributes._encode")
+    params = [a.arg for a in fi.node.args.args]
+    out = []
+    for shape_name, shape in SHAPES.items():
+        for nrow_set in (False, True):
+            df = Frame("df", SEG, ["a", "b"], dtypes={"a": "str", "b": "num"}, nulls={(4, "a"), (5, "b")})
+            widths = [_Fr(3, 2), _Fr(4)]
+            me = Obj("self", cls="TableAttributes", default=_attr_default(pm, "TableAttributes", shape))
+            me.attrs["cell_nrow"] = [[1.0, 1.0] for _ in SEG] if nrow_set else None
+            rec = {"shape": shape_name, "dims": shape, "nrow_set": nrow_set, "df": df, "widths": widths, "fi": fi}
+            out.append(rec)
+            if len(params) < 3:
+                rec["error"] = "signature (self, df, col_widths, row_offset) not recognised"
+                continue
+            args = {params[0]: me, params[1]: df, params[2]: widths}
+            if "row_offset" in params:
+                args["row_offset"] = SEG[0]
+            else:
+                rec["no_offset"] = True
+            sc = Scen(pm, markers={"_as_rtf": "list", "calculate_lines": "scalar"})
+            try:
+                runs = sc.runs(fi, args)
+            except AnalysisError as e:
+                rec["error"] = str(e)
+                continue
+            if len(runs) != 1:
+                rec["error"] = f"{len(runs)} paths depend on conditions the scenario does not determine: {sorted(runs[-1][0])[:3]}"
+                continue
+            r = runs[0][1]
+            if r.raised:
+                rec["error"] = f"raises {r.raised}"
+                continue
+            ret = r.ret if isinstance(r.ret, list) else None
+            if ret is None:
+                rec["error"] = f"result `{r.ret!r}`[:40] is not a list"
+                continue
+            rec["rows"] = [m.recv for m in ret if isinstance(m, Mark) and m.name == "_as_rtf" and isinstance(m.recv, Obj) and m.recv.cls == "Row"]
+            rec["other"] = [m for m in ret if not (isinstance(m, Mark) and m.name == "_as_rtf" and isinstance(m.recv, Obj) and m.recv.cls == "Row")]
+    pm._encode_scenarios = out
+    return out
+
+
+def text_scenarios(pm):
+    """TextAttributes._encode_text on three text rows, methods paragraph / line -> [{shape, method, error | texts: [TextContent Obj]}]"""
+    cached = getattr(pm, "_text_scenarios", None)
+    if cached is not None:
+        return cached
+    fi = pm.func("TextAttributes._encode_text")
+    params = [a.arg for a in fi.node.args.args]
+    out = []
+    for shape_name, shape in (("matrix", (3, 1)), ("scalar", (1, 1))):
+        for method in ("paragraph", "line"):
+            rec = {"shape": shape_name, "dims": shape, "method": method, "fi": fi}
+            out.append(rec)
+            if len(params) < 3:
+                rec["error"] = "signature (self, text, method) not recognised"
+                continue
+            me = Obj("self", cls="TextAttributes", default=_attr_default(pm, "TextAttributes", shape))
+            sc = Scen(pm, markers={"_as_rtf": "scalar"})
+            try:
+                runs = sc.runs(fi, {params[0]: me, params[1]: ["t0", "t1", "t2"], params[2]: method})
+            except AnalysisError as e:
+                rec["error"] = str(e)
+                continue
+            if len(runs) != 1 or runs[0][1].raised:
+                rec["error"] = f"{len(runs)} paths / raised {runs[0][1].raised if runs else None}"
+                continue
+            rec["texts"] = [m.recv for m in runs[0][1].trace if m.name == "new" and m.recv.cls == "TextContent"]
+            rec["ret"] = runs[0][1].ret
+    pm._text_scenarios = out
+    return out
+
+
+def spanning_scenarios(pm):
+    """RTFEncodingService.encode_spanning_row for column 1 of a body with matrix / scalar attributes -> [{shape, error | row: Row Obj}]"""
+    cached = getattr(pm, "_spanning_scenarios", None)
+    if cached is not None:
+        return cached
+    fi = pm.func("RTFEncodingService.encode_spanning_row")
+    params = [a.arg for a in fi.node.args.args]
+    out = []
+    for shape_name, shape in (("matrix", (T_ROWS, 3)), ("scalar", (1, 1))):
+        rec = {"shape": shape_name, "dims": shape, "fi": fi, "width": _Fr(13, 2), "col": 1}
+        out.append(rec)
+        need = ("text", "page_width", "rtf_body_attrs", "col_idx")
+        if not all(p in params for p in need):
+            rec["error"] = f"parameters {need} not recognised"
+            continue
+        body = Obj("rtf_body_attrs", cls="RTFBody", default=_attr_default(pm, "RTFBody", shape))
+        sc = Scen(pm, markers={"_as_rtf": "list"})
+        try:
+            runs = sc.runs(fi, {params[0]: Sym("self", fi.cls), "text": "HEAD", "page_width": rec["width"], "rtf_body_attrs": body, "col_idx": 1})
+        except AnalysisError as e:
+            rec["error"] = str(e)
+            continue
+        if len(runs) != 1 or runs[0][1].raised:
+            rec["error"] = f"{len(runs)} paths / raised {runs[0][1].raised if runs else None}"
+            continue
+        ret = runs[0][1].ret
+        rows = [m.recv for m in (ret if isinstance(ret, list) else []) if isinstance(m, Mark) and m.name == "_as_rtf" and isinstance(m.recv, Obj) and m.recv.cls == "Row"]
+        if len(rows) != 1 or len(ret) != 1:
+            rec["error"] = f"result `{ret!r}`[:60] is not the RTF of exactly one table row"
+            continue
+        rec["row"] = rows[0]
+    pm._spanning_scenarios = out
+    return out
+
+
+def display_text(v):
+    return "" if v is None else str(v)
 
 
 # ------------------------------------------------------------------ _encode index agreement
 def encode_index_agreement(ctx: Ctx, rule: str) -> None:
-    pm = ctx.pm
-    fi = pm.func("TableAttributes._encode")
-    t = unparse(fi.node)
-    loops = [n for n in walk_no_nested(fi.node) if isinstance(n, ast.For)]
-    main = [lp for lp in loops if any(isinstance(c, ast.Call) and dotted(c.func) == "Row" for c in ast.walk(lp))]
-    if len(main) != 1:
-        ctx.violation(rule, fi.short, "row loop", fi.where(), "_encode no longer builds one Row per data row")
-        return
-    lp = main[0]
-    iv = lp.target.id
-    inner = [n for n in lp.body if isinstance(n, ast.For)]
-    jv = inner[0].target.id if inner else "?"
-    ok_ranges = unparse(lp.iter) == "range(dim[0])" and inner and unparse(inner[0].iter) == "range(dim[1])" and "dim = df.shape" in t
-    row_src = next((unparse(a.value) for a in lp.body if isinstance(a, ast.Assign) and unparse(a.targets[0]) == "row"), "?")
-    raw = next((unparse(a.value) for a in ast.walk(lp) if isinstance(a, ast.Assign) and unparse(a.targets[0]) == "raw_value"), "?")
-    cellv = next((unparse(a.value) for a in ast.walk(lp) if isinstance(a, ast.Assign) and unparse(a.targets[0]) == "cell_value"), "?")
-    width = None
-    textkw = None
-    for c in ast.walk(lp):
-        if isinstance(c, ast.Call) and dotted(c.func) == "Cell":
-            width = next((unparse(k.value) for k in c.keywords if k.arg == "width"), None)
-        if isinstance(c, ast.Call) and dotted(c.func) == "TextContent":
-            textkw = next((unparse(k.value) for k in c.keywords if k.arg == "text"), None)
-    ok = ok_ranges and row_src == f"df.row({iv})" and raw == f"row[{jv}]" and cellv == "'' if raw_value is None else str(raw_value)" and \
-        width == f"col_widths[{jv}]" and textkw == "cell_value"
-    ctx.instance(rule, fi.where(lp), f"_encode: rows range(dim[0]) x cols range(dim[1]); row={row_src}, value={raw}, text={cellv}, width={width}")
-    if not ok:
-        ctx.violation(rule, fi.short, f"cell source row={row_src} value={raw} text={cellv} width={width}", fi.where(lp),
-                      "_encode: cell (i, j) is not built from df.row(i)[j] (null -> '', else str(value)) with width col_widths[j] over the full ranges of the frame")
-    apps = [c for c in ast.walk(lp) if isinstance(c, ast.Call) and isinstance(c.func, ast.Attribute) and c.func.attr == "append" and unparse(c.func.value) == "cells"]
-    ext = [c for c in ast.walk(lp) if isinstance(c, ast.Call) and isinstance(c.func, ast.Attribute) and c.func.attr == "extend" and unparse(c.func.value) == "rows"]
-    cond = [x for s in lp.body for x in ast.walk(s) if isinstance(x, (ast.Continue, ast.Break))]
-    ok2 = len(apps) == 1 and len(ext) == 1 and not cond and inner and any(x is apps[0] for x in ast.walk(inner[0])) and \
-        not any(isinstance(a, ast.If) for a in anc(apps[0], inner[0])) and not any(isinstance(a, (ast.If, ast.For)) and a is not lp for a in anc(ext[0], lp))
-    reset = any(isinstance(a, ast.Assign) and unparse(a.targets[0]) == "cells" and unparse(a.value) == "[]" for a in lp.body)
-    ctx.instance(rule, fi.where(lp), f"_encode: one cells.append per (i,j), one rows.extend per i, cells reset per row: {ok2 and reset}")
-    if not (ok2 and reset):
-        ctx.violation(rule, fi.short, "cell/row emission", fi.where(lp), "_encode does not emit exactly one cell per (row, column) and one table row per data row")
-    rows_arg = next((unparse(k.value) for c in ast.walk(lp) if isinstance(c, ast.Call) and dotted(c.func) == "Row" for k in c.keywords if k.arg == "row_cells"), "?")
-    if rows_arg != "cells":
-        ctx.violation(rule, fi.short, "Row cells " + rows_arg, fi.where(lp), "the table row is not built from the cells of that data row")
+    """TableAttributes._encode: one table row per data row, one cell per column, cell (i, j) shows df[i, j] (null -> '', else
+    str(value)) and ends at col_widths[j].  Decided on the interpreted scenarios (a frame with nulls in a string and in a
+    numeric column)."""
+    scenario_note(ctx, rule, "TableAttributes._encode", "for every non-null cell value (nulls at one string and one numeric cell)",
+                  {"segment shape": "3x2 (table rows 3..5 of 7, row_offset 3)", "attribute shapes": list(SHAPES), "cell_nrow": ["unset", "set"], "evaluations": 2 * len(SHAPES)})
+    n_ok = 0
+    for rec in encode_scenarios(ctx.pm):
+        fi = rec["fi"]
+        tag = f"{rec['shape']} attributes, cell_nrow {'set' if rec['nrow_set'] else 'unset'}"
+        if "error" in rec:
+            ctx.gap(rule, f"_encode could not be interpreted on the mock segment ({tag}): {rec['error']}")
+            continue
+        df, widths, rows = rec["df"], rec["widths"], rec["rows"]
+        if rec["other"]:
+            ctx.gap(rule, f"_encode: element `{rec['other'][0]!r}`[:60] of the result could not be traced to a table row")
+            continue
+        texts = []
+        ok = True
+        if len(rows) != len(df):
+            ok = False
+            ctx.violation(rule, fi.short, f"cell/row emission: {len(rows)} rows for {len(df)} data rows", fi.where(),
+                          f"_encode emits {len(rows)} table rows for a frame of {len(df)} rows (one table row per data row expected)")
+        for i, row in enumerate(rows[:len(df)]):
+            cells = row.attrs.get("row_cells")
+            if not isinstance(cells, (list, tuple)) or not all(isinstance(c, Obj) and c.cls == "Cell" for c in cells):
+                ctx.gap(rule, f"_encode: the cells of table row {i} could not be determined")
+                ok = False
+                continue
+            if len(cells) != len(df.cols):
+                ok = False
+                ctx.violation(rule, fi.short, f"cell/row emission: {len(cells)} cells for {len(df.cols)} columns", fi.where(),
+                              f"_encode builds {len(cells)} cells in a row of a frame with {len(df.cols)} columns")
+                continue
+            want_row = df.row(i)
+            for j, cell in enumerate(cells):
+                tc = cell.attrs.get("text")
+                got = tc.attrs.get("text") if isinstance(tc, Obj) else None
+                want = display_text(want_row[j])
+                texts.append(got)
+                if isinstance(got, Sym) or not isinstance(tc, Obj):
+                    ctx.gap(rule, f"_encode: the text of cell ({i}, {j}) could not be determined")
+                    ok = False
+                elif got != want:
+                    ok = False
+                    src = "a null value" if want_row[j] is None else f"value {want_row[j]!r} of frame cell ({i}, {j})"
+                    ctx.violation(rule, fi.short, f"cell source ({i},{j}) shows {got!r}"[:120], fi.where(),
+                                  f"_encode: cell ({i}, {j}) shows {got!r} for {src} (expected {want!r}: df.row(i)[j], null -> '', else str(value))")
+                w = cell.attrs.get("width")
+                if isinstance(w, Sym):
+                    ctx.gap(rule, f"_encode: the width of cell ({i}, {j}) could not be determined")
+                    ok = False
+                elif w != widths[j]:
+                    ok = False
+                    ctx.violation(rule, fi.short, f"cell source width of column {j}", fi.where(), f"_encode: cell ({i}, {j}) ends at `{w!r}`, not at col_widths[{j}]")
+        ctx.instance(rule, fi.where(), f"_encode on a 3x2 segment with nulls ({tag}): {len(rows)} rows; cell texts {texts}"[:290])
+        n_ok += ok
+    if not n_ok and not ctx.deferred_errors and not any(f.rule == rule for f in ctx.findings):
+        ctx.gap(rule, "_encode: no scenario could be evaluated")
 
 
 # ------------------------------------------------------------------ column removal
 def column_removal(ctx: Ctx, rule: str) -> None:
+    """prepare_dataframe_for_body_encoding returns (displayed frame, original frame, attributes cut to the displayed columns):
+    the displayed frame keeps the non-grouping columns in frame order, col_rel_width and every attribute matrix lose exactly
+    the entries at the ORIGINAL positions of the removed columns, and the caller's attributes are not modified.
+    Decided by interpreting the function on mock frames (two removed columns at non-adjacent positions, both iteration orders
+    of the set of removed columns); if the function cannot be interpreted the structural rule below is used instead."""
+    pm = ctx.pm
+    fi = pm.func("RTFEncodingService.prepare_dataframe_for_body_encoding")
+    scenario_note(ctx, rule, "RTFEncodingService.prepare_dataframe_for_body_encoding", "for every cell content and every attribute entry",
+                  {"frame shape": "4x5", "removed columns": "positions 0 and 2 (or none)", "grouping configurations": 6, "set iteration orders": 2,
+                   "attribute shapes": ["4x5", "1x5", "1x1"], "evaluations": 12})
+    try:
+        _column_removal_scenarios(ctx, rule, fi)
+    except AnalysisError as e:
+        ctx.instance(rule, fi.where(), f"prepare_dataframe_for_body_encoding not interpretable ({str(e)[:120]}): structural rule applied")
+        _column_removal_structural(ctx, rule)
+
+
+def _column_removal_scenarios(ctx: Ctx, rule: str, fi) -> None:
+    pm = ctx.pm
+    ps = [a.arg for a in fi.node.args.args]
+    if len(ps) != 3:
+        raise AnalysisError("signature (self, df, rtf_attrs) not recognised")
+    cols = ["g1", "z", "g2", "m", "a"]
+    nrow = 4
+    scen = (("page_by on columns 0 and 2", dict(page_by=["g1", "g2"], subline_by=None, new_page=False), ["g1", "g2"]),
+            ("page_by listed against frame order", dict(page_by=["g2", "g1"], subline_by=None, new_page=False), ["g1", "g2"]),
+            ("subline_by column 2 and page_by column 0", dict(page_by=["g1"], subline_by=["g2"], new_page=False), ["g1", "g2"]),
+            ("new_page with page_by kept as a column", dict(page_by=["g1"], subline_by=None, new_page=True, pageby_row="column"), []),
+            ("new_page with page_by shown as first row", dict(page_by=["g1", "g2"], subline_by=None, new_page=True, pageby_row="first_row"), ["g1", "g2"]),
+            ("no grouping", dict(page_by=None, subline_by=None, new_page=False), []))
+    shapes = {"text_font": (nrow, 5), "text_format": (1, 5), "border_left": (1, 1), "text_justification": (nrow, 5), "border_top": (1, 5)}
+
+    def mk(conf):
+        body = Obj("rtf_attrs", cls="RTFBody", default=lambda name: None)
+        body.attrs.update(pageby_row="column", group_by=None, col_rel_width=[AV("col_rel_width", 0, c) for c in range(5)])
+        body.attrs.update({k: matrix(k, *sh) for k, sh in shapes.items()})
+        body.attrs.update(conf)
+        return body
+
+    def strip(attrs):
+        return {k: v for k, v in attrs.items() if v is not None}
+    n_ok = 0
+    for title, conf, removed in scen:
+        keep = [i for i, c in enumerate(cols) if c not in removed]
+        for order in ("insertion", "reverse"):
+            sc = Scen(pm, set_order=order)
+            runs = sc.runs(fi, {ps[0]: Sym("self", fi.cls), ps[1]: Frame("df", range(nrow), cols), ps[2]: mk(conf)})
+            if len(runs) != 1:
+                raise AnalysisError(f"{len(runs)} paths depend on conditions the scenario does not determine")
+            r = runs[0][1]
+            if r.raised:
+                ctx.violation(rule, fi.short, f"raises {r.raised}"[:80], fi.where(), f"prepare_dataframe_for_body_encoding raises {r.raised} for {title} on a frame with columns {cols}")
+                continue
+            ret = r.ret
+            if not (isinstance(ret, tuple) and len(ret) == 3 and isinstance(ret[0], Frame) and isinstance(ret[1], Frame) and isinstance(ret[2], Obj)):
+                if isinstance(ret, tuple) and len(ret) == 3 and isinstance(ret[0], Frame) and isinstance(ret[1], Frame):
+                    raise AnalysisError("the returned attributes could not be determined")
+                raise AnalysisError(f"result `{ret!r}`[:60] is not (frame, frame, attributes)")
+            shown, orig, attrs = ret
+            tag = f"{title}, set order {order}"
+            ok = True
+            if shown.cols == cols and orig.cols == [cols[i] for i in keep] and removed:
+                ok = False
+                ctx.violation(rule, fi.short, "return", fi.where(), "prepare_dataframe_for_body_encoding returns (original, reduced) instead of (reduced frame, original frame, attributes)")
+                continue
+            if shown.cols != [cols[i] for i in keep]:
+                ok = False
+                what = "the displayed columns are not taken in the frame's own column order" if sorted(shown.cols) == sorted(cols[i] for i in keep) else \
+                    f"the displayed frame has columns {shown.cols}, expected {[cols[i] for i in keep]}"
+                ctx.violation(rule, fi.short, "remaining columns " + str(shown.cols), fi.where(), f"{what} ({tag})")
+            if orig.cols != cols or orig.rows != list(range(nrow)) or shown.rows != list(range(nrow)):
+                ok = False
+                ctx.violation(rule, fi.short, "frames returned", fi.where(), f"the frames returned are not (all rows x displayed columns, the original frame) ({tag}): {shown!r}, {orig!r}")
+            w = attrs.attrs.get("col_rel_width")
+            want_w = [AV("col_rel_width", 0, i) for i in keep]
+            if w != want_w:
+                ok = False
+                ctx.violation(rule, fi.short, "width slicing " + repr(w)[:80], fi.where(),
+                              f"col_rel_width of the displayed columns is {w!r}, expected the entries at the original positions {keep} ({tag}): widths are cut at the wrong positions")
+            for k, sh in shapes.items():
+                v = attrs.attrs.get(k)
+                if not (isinstance(v, list) and v and all(isinstance(x, list) for x in v)):
+                    raise AnalysisError(f"attribute {k} after removal is `{v!r}`[:50]")
+                if sh[1] == 1:
+                    good = all(x == AV(k, 0, 0) for row in v for x in row)
+                elif not removed and v == matrix(k, *sh):
+                    good = True
+                else:
+                    good = all(row == [AV(k, (ri % sh[0]), i) for i in keep] for ri, row in enumerate(v)) and (len(v) == nrow or (sh[0] == 1 and len(v) == 1))
+                if not good:
+                    ok = False
+                    ctx.violation(rule, fi.short, f"attribute slicing {k} {sh[0]}x{sh[1]}", fi.where(),
+                                  f"attribute {k} ({sh[0]}x{sh[1]}) of the displayed columns is {repr(v[0])[:90]}..., expected the entries of the original columns {keep} ({tag}): "
+                                  "attribute columns are cut at the wrong positions (positions must be those of the removed columns in the ORIGINAL frame, applied to the grid expanded to the original shape)")
+            before, after = strip(mk(conf).attrs), strip(sc.last_args[ps[2]].attrs)
+            if removed and before != after:
+                ok = False
+                changed = sorted(k for k in set(before) | set(after) if before.get(k) != after.get(k))
+                ctx.violation(rule, fi.short, "attrs copy", fi.where(), f"the caller's attributes are modified ({changed[:4]}): attributes are cut in place instead of on a deep copy")
+            ctx.instance(rule, fi.where(), f"column removal, {tag}: displayed {shown.cols}; widths {w!r}"[:250])
+            n_ok += ok
+    if not n_ok and not any(f.rule == rule for f in ctx.findings):
+        raise AnalysisError("no scenario could be evaluated")
+
+
+def _column_removal_structural(ctx: Ctx, rule: str) -> None:
     """prepare_dataframe_for_body_encoding: the displayed frame, the attribute matrices and col_rel_width must be cut
     at the positions the removed columns have in the ORIGINAL frame.  Constructs are recognised by role (tolerant of
     container type, temporaries, helper closures, comprehension vs loop); their property-relevant attributes are then
@@ -341,7 +721,138 @@ def column_removal(ctx: Ctx, rule: str) -> None:
             ctx.violation(rule, fi.short, "return", fi.where(r), "prepare_dataframe_for_body_encoding returns (original, reduced) instead of (reduced frame, original frame, attributes)")
 
 
+def body_section_scenarios(pm):
+    """interpret UnifiedRTFEncoder._encode_body_section for a single body whose page_by column was removed (3 pages), with and
+    without relative widths, and with an empty pagination result -> [{title, error | ret, trace, ...}]"""
+    cached = getattr(pm, "_body_section_scenarios", None)
+    if cached is not None:
+        return cached
+    fi = pm.func("UnifiedRTFEncoder._encode_body_section")
+    ps = [a.arg for a in fi.node.args.args]
+    out = []
+    cols = ["g", "a", "b"]
+    for title, with_widths, n_pages in (("relative widths set, 3 pages", True, 3), ("no relative widths, 3 pages", False, 3), ("pagination returns no page", True, 0)):
+        rec = {"title": title, "fi": fi, "with_widths": with_widths, "n_pages": n_pages, "W": _Fr(19, 2)}
+        out.append(rec)
+        if len(ps) != 4:
+            rec["error"] = "signature (self, document, df, rtf_body) not recognised"
+            continue
+        orig = Frame("original", range(6), cols)
+        red = Frame("reduced", range(6), ["a", "b"])
+        attrs = Obj("processed_attrs", cls="RTFBody", col_rel_width=[AV("w", 0, 1), AV("w", 0, 2)] if with_widths else None, page_by=["g"], subline_by=None, group_by=None)
+        body = Obj("rtf_body", cls="RTFBody", col_rel_width=[AV("w", 0, 0), AV("w", 0, 1), AV("w", 0, 2)] if with_widths else None, page_by=["g"], subline_by=None, group_by=None)
+        pages = [Obj(f"page{k}", cls="PageContext", data=Frame("original", range(2 * k, 2 * k + 2), cols)) for k in range(n_pages)]
+        # the table width is deliberately larger than the printable width: any clamp / recomputation from other page settings shows
+        doc = Obj("document", cls="RTFDocument", rtf_body=body, df=orig,
+                  rtf_page=Obj("rtf_page", cls="RTFPage", col_width=rec["W"], width=_Fr(17, 2), height=_Fr(11), margin=[1.25, 1, 1.75, 1.25, 1.75, 1.00625], orientation="portrait"))
+        markers = {"prepare_dataframe_for_body_encoding": lambda m, red=red, orig=orig, attrs=attrs: (red, orig, attrs), "get": "scalar",
+                   "paginate": lambda m, pages=pages: list(pages), "_col_widths": "scalar", "calculate_additional_rows_per_page": "scalar",
+                   "_apply_data_post_processing": "scalar", "render": "list",
+                   "process": lambda m: Obj("processed(" + (m.args[1].name if len(m.args) > 1 and isinstance(m.args[1], Obj) else "?") + ")", cls="PageContext", src=m.args[1] if len(m.args) > 1 else None)}
+        sc = Scen(pm, markers=markers)
+        df_in = Frame("df", range(6), cols)
+        rec.update(df_in=df_in, orig=orig, red=red, attrs=attrs, body=body)
+        try:
+            runs = sc.runs(fi, {ps[0]: Sym("self", fi.cls), ps[1]: doc, ps[2]: df_in, ps[3]: body})
+        except AnalysisError as e:
+            rec["error"] = str(e)
+            continue
+        if len(runs) != 1 or runs[0][1].raised:
+            rec["error"] = f"{len(runs)} paths / raises {runs[0][1].raised if runs else None}"
+            continue
+        rec["ret"], rec["trace"] = runs[0][1].ret, runs[0][1].trace
+    pm._body_section_scenarios = out
+    return out
+
+
 def body_section_widths(ctx: Ctx, rule: str) -> None:
+    """_encode_body_section: the column boundaries of the data rows are Utils._col_widths(relative widths of the DISPLAYED columns,
+    rtf_page.col_width) and that result is what pagination and rendering receive.  Decided on the interpreted scenarios; the
+    structural rule is the fallback when the function cannot be interpreted."""
+    recs = body_section_scenarios(ctx.pm)
+    scenario_note(ctx, rule, "UnifiedRTFEncoder._encode_body_section", "for every relative width entry (table width fixed at 9.5 in on an 8.5 in page)",
+                  {"frame": "6x3 with one page_by column removed", "pages": [3, 0], "relative widths": ["set", "unset"], "evaluations": 3})
+    if any("error" in r for r in recs):
+        fi = recs[0]["fi"]
+        ctx.instance(rule, fi.where(), f"_encode_body_section not interpretable ({[r['error'] for r in recs if 'error' in r][0][:120]}): structural rule applied")
+        _body_section_widths_structural(ctx, rule)
+        return
+    for rec in recs:
+        fi = rec["fi"]
+        calls = [m for m in rec["trace"] if m.name == "_col_widths"]
+        news = {m.recv.cls: m for m in rec["trace"] if m.name == "new"}
+        carrier = news.get("PaginationContext") if rec["n_pages"] else news.get("PageContext")
+        passed = carrier.kw.get("col_widths") if carrier is not None else None
+        ctx.instance(rule, fi.where(), f"_encode_body_section ({rec['title']}): {[repr(c)[:80] for c in calls]} -> col_widths of {carrier.recv.cls if carrier else '?'}")
+        if carrier is None:
+            ctx.gap(rule, f"_encode_body_section ({rec['title']}): the pagination context / fallback page could not be re-identified")
+            continue
+        if not (isinstance(passed, Mark) and passed.name == "_col_widths"):
+            ctx.violation(rule, fi.short, "widths not passed", fi.where(), f"`col_widths={passed!r}`[:80] handed to pagination/rendering is not the result of Utils._col_widths ({rec['title']})")
+            continue
+        rel, w = passed.arg(0, "rel_widths"), passed.arg(1, "col_width")
+        if isinstance(w, Sym) or isinstance(rel, Sym):
+            ctx.gap(rule, f"_encode_body_section ({rec['title']}): arguments of Utils._col_widths could not be determined")
+            continue
+        if w != rec["W"]:
+            ctx.violation(rule, fi.short, "table width " + repr(w)[:60], fi.where(),
+                          f"data rows are laid out in a table width of {float(w) if isinstance(w, (int, float, _Fr)) else w!r} for rtf_page.col_width = {float(rec['W'])} "
+                          "(page width 8.5, margins 1.25/1): not the configured rtf_page.col_width that every other row uses")
+        want = [AV("w", 0, 1), AV("w", 0, 2)] if rec["with_widths"] else [1, 1]
+        if rel != want:
+            ctx.violation(rule, fi.short, "relative widths " + repr(rel)[:80], fi.where(),
+                          f"data column widths are computed from {rel!r}, not from the reduced (displayed) attributes/frame: expected {want!r} ({rec['title']})")
+
+
+def body_section_order(ctx: Ctx, rule: str) -> None:
+    """_encode_body_section: pagination works on the original frame, page data is re-cut from the reduced frame, and every
+    page is processed and rendered exactly once, in page order, the chunks concatenated in that order"""
+    scenario_note(ctx, rule, "UnifiedRTFEncoder._encode_body_section", "for every page content",
+                  {"frame": "6x3 with one page_by column removed", "pages": [3, 0], "relative widths": ["set", "unset"], "evaluations": 3})
+    for rec in body_section_scenarios(ctx.pm):
+        fi = rec["fi"]
+        if "error" in rec:
+            ctx.gap(rule, f"_encode_body_section could not be interpreted ({rec['title']}): {rec['error']}")
+            continue
+        tr = rec["trace"]
+        prep = [m for m in tr if m.name == "prepare_dataframe_for_body_encoding"]
+        ok_prep = len(prep) == 1 and len(prep[0].args) == 2 and isinstance(prep[0].args[0], Frame) and prep[0].args[0].tag == "df" and isinstance(prep[0].args[1], Obj) and prep[0].args[1].name == "rtf_body"
+        if not ok_prep:
+            ctx.violation(rule, fi.short, "frames: prepare", fi.where(), f"the section's own frame and body are not what prepare_dataframe_for_body_encoding receives: {prep!r}"[:200])
+        ret = rec["ret"]
+        if not isinstance(ret, list) or not all(isinstance(m, Mark) and m.name == "render" for m in ret):
+            ctx.gap(rule, f"_encode_body_section ({rec['title']}): result `{ret!r}`[:60] could not be traced to renderer.render calls")
+            continue
+        rendered = []
+        for m in ret:
+            pg = m.args[1] if len(m.args) > 1 else m.kw.get("page")
+            src = pg.attrs.get("src") if isinstance(pg, Obj) and "src" in pg.attrs else pg
+            rendered.append(src.name if isinstance(src, Obj) else repr(src))
+        want = [f"page{k}" for k in range(rec["n_pages"])]
+        ctx.instance(rule, fi.where(), f"_encode_body_section ({rec['title']}): pages rendered (after feature processing) {rendered}")
+        if rec["n_pages"]:
+            if rendered != want:
+                ctx.violation(rule, fi.short, "page loop", fi.where(), f"pages are not rendered in page order and concatenated: pages {want} are rendered as {rendered}")
+            if any(not (isinstance(m.args[1], Obj) and "src" in m.args[1].attrs) for m in ret if len(m.args) > 1):
+                ctx.violation(rule, fi.short, "page loop: unprocessed page", fi.where(), "a page is rendered without the feature processor's result (borders) for that page")
+            pc = [m for m in tr if m.name == "new" and m.recv.cls == "PaginationContext"]
+            post = [m for m in tr if m.name == "_apply_data_post_processing"]
+            df_ok = len(pc) == 1 and isinstance(pc[0].kw.get("df"), Frame) and pc[0].kw["df"].tag == "original"
+            post_ok = len(post) == 1 and len(post[0].args) >= 2 and isinstance(post[0].args[1], Frame) and post[0].args[1].tag == "reduced" and \
+                isinstance(post[0].args[0], list) and [p.name for p in post[0].args[0] if isinstance(p, Obj)] == want
+            ctx.instance(rule, fi.where(), f"pagination on the original frame: {df_ok}; page data re-cut from the reduced frame: {post_ok}")
+            if not (df_ok and post_ok):
+                ctx.violation(rule, fi.short, "frames", fi.where(), "pagination/rendering no longer use (original frame for grouping, reduced frame for display) consistently: "
+                              f"PaginationContext.df = {pc[0].kw.get('df') if pc else None!r}, _apply_data_post_processing{tuple(post[0].args[1:2]) if post else '()'!r}"[:300])
+        else:
+            pg = ret[0].args[1] if len(ret) == 1 and len(ret[0].args) > 1 else None
+            src = pg.attrs.get("src") if isinstance(pg, Obj) else None
+            data = src.attrs.get("data") if isinstance(src, Obj) else None
+            if len(ret) != 1 or not (isinstance(data, Frame) and data.tag == "reduced" and data.rows == list(range(6))):
+                ctx.violation(rule, fi.short, "page loop: fallback page", fi.where(), f"when pagination yields no page the whole displayed frame is not rendered as one page (rendered: {rendered}, data {data!r})")
+
+
+def _body_section_widths_structural(ctx: Ctx, rule: str) -> None:
     """_encode_body_section: widths of the displayed columns come from the reduced attributes and the page's col_width.
     Temporaries and if/else arms are expanded; a width built from anything but rtf_page.col_width (with the 8.5
     default) is a violation, an expression that cannot be read is an analysis gap."""
@@ -394,28 +905,920 @@ def body_section_widths(ctx: Ctx, rule: str) -> None:
 
 
 def broadcast_expansion(ctx: Ctx, rule: str) -> None:
-    """BroadcastValue.to_list tiles the stored block up to the requested shape: repeats must be the
-    ceiling of dimension / block size, and the result is cut to exactly the requested shape"""
+    """BroadcastValue.to_list tiles the stored block up to the requested shape: entry (r, c) of the result is
+    value[r % R][c % C], the result has exactly the requested shape, and its rows are fresh lists (a later per-page border
+    update writes single cells into them).  Decided by interpreting to_list on blocks that do and do not divide the shape."""
     pm = ctx.pm
     fi = pm.func("BroadcastValue.to_list")
-    env = {unparse(a.targets[0]): a.value for a in walk_no_nested(fi.node) if isinstance(a, ast.Assign) and len(a.targets) == 1}
-    counts = unparse(env.get("(row_count, col_count)", env.get("row_count, col_count"))) if ("(row_count, col_count)" in env or "row_count, col_count" in env) else "?"
-    for name, dim_i, cnt in (("row_repeats", 0, "row_count"), ("col_repeats", 1, "col_count")):
-        v = env.get(name)
-        ok = False
-        desc = unparse(v) if v is not None else "?"
-        if isinstance(v, ast.Call) and dotted(v.func) == "max" and len(v.args) == 2 and unparse(v.args[0]) == "1":
-            q = v.args[1]
-            if isinstance(q, ast.BinOp) and isinstance(q.op, ast.FloorDiv) and unparse(q.right) == cnt:
-                ok = linform(q.left) == {f"self.dimension[{dim_i}]": 1, cnt: 1, "": -1}
-        ctx.instance(rule, fi.where(v) if v is not None else fi.where(), f"BroadcastValue.to_list {name} = {desc} (ceiling division: {ok})")
-        if not ok:
-            ctx.violation(rule, fi.short, f"{name} = {desc}", fi.where(),
-                          f"BroadcastValue.to_list computes {name} as `{desc}`, not ceil(dimension/block) = (dimension + block - 1) // block: a block that does not divide the "
-                          "table is tiled too short and a later per-page border update indexes past the end (IndexError during rtf_encode)")
-    t = unparse(fi.node)
-    ok = "[row[:self.dimension[1]] for row in value[:self.dimension[0]]]" in t and "value = [column * col_repeats for column in self.value] * row_repeats" in t \
-        and "(len(self.value), len(self.value[0]))" in t
-    ctx.instance(rule, fi.where(), f"to_list tiles columns then rows and cuts to exactly the requested shape: {ok}")
-    if not ok:
-        ctx.violation(rule, fi.short, "tiling/cut", fi.where(), "BroadcastValue.to_list no longer tiles the block (columns, then rows) and cuts the result to exactly dimension[0] x dimension[1]")
+    ps = [a.arg for a in fi.node.args.args]
+    cases = [((2, 2), (5, 3)), ((1, 1), (4, 3)), ((1, 3), (4, 3)), ((3, 1), (7, 2)), ((6, 3), (4, 3)), ((4, 3), (4, 3)), ((3, 2), (3, 5)), ((2, 4), (5, 3))]
+    scenario_note(ctx, rule, "BroadcastValue.to_list", "for every entry of the block", {"(block shape, requested shape)": cases, "evaluations": len(cases)})
+    short_rows, short_cols, wrong, alias, n = [], [], [], [], 0
+    for blk, dim in cases:
+        me = Obj("bv", cls="BroadcastValue", value=matrix("m", *blk), dimension=dim)
+        stored = me.attrs["value"]
+        sc = Scen(pm)
+        try:
+            runs = sc.runs(fi, {ps[0]: me})
+        except AnalysisError as e:
+            ctx.gap(rule, f"BroadcastValue.to_list could not be interpreted on a {blk[0]}x{blk[1]} block: {e}")
+            return
+        if len(runs) != 1:
+            ctx.gap(rule, "BroadcastValue.to_list depends on conditions the scenario does not determine")
+            return
+        r = runs[0][1]
+        n += 1
+        tag = f"{blk[0]}x{blk[1]} block to {dim[0]}x{dim[1]}"
+        if r.raised:
+            wrong.append(f"{tag}: raises {r.raised}")
+            continue
+        out = r.ret
+        if not isinstance(out, list) or not all(isinstance(x, list) for x in out):
+            ctx.gap(rule, f"BroadcastValue.to_list: result `{out!r}`[:60] is not a list of rows")
+            return
+        if len(out) < dim[0]:
+            short_rows.append(f"{tag}: {len(out)} rows")
+        elif any(len(x) < dim[1] for x in out):
+            short_cols.append(f"{tag}: rows of {min(len(x) for x in out)} columns")
+        elif len(out) != dim[0] or any(len(x) != dim[1] for x in out):
+            wrong.append(f"{tag}: result is {len(out)}x{len(out[0]) if out else 0}")
+        else:
+            miss = [(i, j) for i in range(dim[0]) for j in range(dim[1]) if out[i][j] != expected_entry("m", blk, i, j)]
+            if miss:
+                i, j = miss[0]
+                wrong.append(f"{tag}: entry ({i}, {j}) is {out[i][j]!r}, expected {expected_entry('m', blk, i, j)!r}")
+        ids = [id(x) for x in out]
+        if len(set(ids)) != len(ids):
+            alias.append(f"{tag}: the same list object is returned for several rows")
+        used = sc.last_args[ps[0]].attrs.get("value")           # the receiver the run worked on (arguments are copied per run)
+        if isinstance(used, list) and any(x is y for x in out for y in used):
+            alias.append(f"{tag}: rows of the stored value itself are returned")
+    ctx.instance(rule, fi.where(), f"BroadcastValue.to_list on {n} (block, shape) pairs: entry (r, c) = block[r % R][c % C], exact shape: {not (short_rows or short_cols or wrong)}; fresh rows: {not alias}")
+    for name, lst in (("row_repeats", short_rows), ("col_repeats", short_cols)):
+        if lst:
+            ctx.violation(rule, fi.short, f"{name} too small", fi.where(),
+                          f"BroadcastValue.to_list tiles the block too short ({lst[0]}): the repeat count must be ceil(dimension/block) = (dimension + block - 1) // block; "
+                          "a block that does not divide the table is tiled too short and a later per-page border update indexes past the end (IndexError during rtf_encode)")
+    if wrong:
+        ctx.violation(rule, fi.short, "tiling/cut", fi.where(), "BroadcastValue.to_list no longer tiles the block (entry (r, c) = block[r % R][c % C]) and cuts the result to exactly dimension[0] x dimension[1]: " + wrong[0])
+    if alias:
+        ctx.violation(rule, fi.short, "aliased rows", fi.where(), "BroadcastValue.to_list returns rows that are shared list objects (" + alias[0] + "); writing one cell's border into the expansion then changes other rows / the stored attribute, on every page")
+
+
+# =====================================================================================================
+# Scenario execution: a function of the table pipeline is interpreted (sa/dtab.py: the syntax tree is
+# evaluated, nothing of the repository is imported or run) on a small mock table whose rows, columns,
+# widths and attribute entries are all distinguishable.  What the function *does* with them (which rows
+# it hands on, with which offset, which attribute entry reaches which cell) is then compared with the
+# property.  This is independent of statement shape, local names, helper extraction, guard clauses,
+# loop/comprehension form...  A construct outside the interpreter's subset is an analysis gap.
+# =====================================================================================================
+from fractions import Fraction as _Fr
+
+from ..dtab import DT, NeedAtom, Sym, Unsupported, _Raise
+
+
+class Frame:
+    """mock of a polars DataFrame: an ordered window of row ids over named, typed columns"""
+
+    def __init__(self, tag, rows, cols, dtypes=None, nulls=(), filled=None):
+        self.tag, self.rows, self.cols = tag, list(rows), list(cols)
+        self.dtypes = dict(dtypes or {})
+        self.nulls = frozenset(nulls)
+        self.filled = dict(filled or {})
+
+    def derive(self, **kw):
+        d = dict(tag=self.tag, rows=self.rows, cols=self.cols, dtypes=self.dtypes, nulls=self.nulls, filled=self.filled)
+        d.update(kw)
+        return Frame(**d)
+
+    def value(self, r, c):
+        if (r, c) in self.nulls:
+            return self.filled.get(c)
+        if self.dtypes.get(c, "str") == "num":
+            return 1000 * (r + 1) + self.cols.index(c) if c in self.cols else 1000 * (r + 1)
+        return f"{self.tag}<{r},{c}>"
+
+    def row(self, i):
+        return tuple(self.value(self.rows[i], c) for c in self.cols)
+
+    def __len__(self):
+        return len(self.rows)
+
+    def __bool__(self):
+        return True
+
+    def __repr__(self):
+        return f"<{self.tag} rows={self.rows} cols={self.cols}>"
+
+
+class Obj:
+    """mock object: a bag of attributes (optionally an instance of a repository class whose methods are interpreted)"""
+
+    def __init__(self, name, cls=None, default=None, **attrs):
+        self.name, self.cls, self.default, self.attrs = name, cls, default, dict(attrs)
+
+    def __repr__(self):
+        return f"<{self.cls or 'obj'} {self.name}>"
+
+
+class AV:
+    """a distinguishable attribute entry: (attribute name, row, column) of the matrix it was taken from"""
+    __slots__ = ("name", "r", "c")
+
+    def __init__(self, name, r, c):
+        self.name, self.r, self.c = name, r, c
+
+    def __eq__(self, o):
+        return isinstance(o, AV) and (self.name, self.r, self.c) == (o.name, o.r, o.c)
+
+    def __hash__(self):
+        return hash((self.name, self.r, self.c))
+
+    def __repr__(self):
+        return f"{self.name}[{self.r}][{self.c}]"
+
+
+class Mark:
+    """result of a call that is not interpreted (an emitter or an external service): callee, receiver, arguments"""
+
+    def __init__(self, name, recv, args, kw):
+        self.name, self.recv, self.args, self.kw = name, recv, list(args), dict(kw)
+
+    def arg(self, i, name=None, default=None):
+        if name is not None and name in self.kw:
+            return self.kw[name]
+        return self.args[i] if i is not None and i < len(self.args) else default
+
+    def __repr__(self):
+        return f"«{self.name}({', '.join([repr(a) for a in self.args] + [f'{k}={v!r}' for k, v in self.kw.items()])})»"
+
+    __str__ = __repr__
+
+
+class Splat:
+    """`acc.extend(x)` where x is not a concrete sequence"""
+
+    def __init__(self, v):
+        self.v = v
+
+    def __repr__(self):
+        return f"*{self.v!r}"
+
+
+class MSet:
+    """mock of a set: membership semantics of a set, iteration in insertion order or (order='reverse') in the opposite
+    order - a Python set of strings iterates in an arbitrary order, so code must be right for both"""
+
+    def __init__(self, items=(), order="insertion"):
+        self.items, self.order = [], order
+        for x in items:
+            self.add(x)
+
+    def add(self, x):
+        if x not in self.items:
+            self.items.append(x)
+
+    def update(self, *others):
+        for o in others:
+            for x in (o.seq() if isinstance(o, MSet) else list(o)):
+                self.add(x)
+
+    def discard(self, x):
+        if x in self.items:
+            self.items.remove(x)
+
+    def remove(self, x):
+        if x not in self.items:
+            raise KeyError(x)
+        self.items.remove(x)
+
+    def seq(self):
+        return list(self.items) if self.order == "insertion" else list(reversed(self.items))
+
+    def copy(self):
+        return MSet(self.items, self.order)
+
+    def __contains__(self, x):
+        return x in self.items
+
+    def __len__(self):
+        return len(self.items)
+
+    def __iter__(self):
+        return iter(self.seq())
+
+    def __eq__(self, o):
+        return isinstance(o, MSet) and sorted(map(repr, self.items)) == sorted(map(repr, o.items))
+
+    def __hash__(self):
+        return 0
+
+    def __repr__(self):
+        return "{" + ", ".join(repr(x) for x in self.seq()) + "}"
+
+
+class TypeOf:
+    def __init__(self, obj):
+        self.obj = obj
+
+
+def matrix(name, nrow, ncol):
+    return [[AV(name, r, c) for c in range(ncol)] for r in range(nrow)]
+
+
+def nested_list_form(v):
+    """model of attributes._to_nested_list (BroadcastValue's `value` validator)"""
+    if v is None or isinstance(v, Sym):
+        return v
+    if isinstance(v, Frame):
+        return [list(v.row(i)) for i in range(len(v))]
+    if isinstance(v, tuple):
+        return [[x] for x in v]
+    if isinstance(v, list):
+        if all(isinstance(x, list) for x in v):
+            return v
+        return [v]
+    return [[v]]
+
+
+class Scen(DT):
+    """dtab interpreter extended with mock frames/objects, concrete comprehensions, record-keeping constructors and
+    uninterpreted `marker` calls.  markers: {method name: 'list' | 'scalar'}"""
+
+    def __init__(self, pm, markers=None, fixed=None, frame_passthrough=(), set_order="insertion", **kw):
+        super().__init__(pm, **kw)
+        self.set_order = set_order
+        self.markers = dict(markers or {})
+        self.fixed_src = dict(fixed or {})
+        self.fixed = {}
+        self.frame_passthrough = set(frame_passthrough)
+        self.trace = []
+
+    # ---- runs
+    def run(self, fi, args, valuation):
+        import copy
+        self.fixed = copy.deepcopy(self.fixed_src)
+        self.trace = []
+        self.last_args = copy.deepcopy(args)
+        r = super().run(fi, self.last_args, valuation)
+        r.trace = self.trace
+        return r
+
+    def runs(self, fi, args, limit=512):
+        """[(valuation, Run)] over every valuation of the undetermined conditions; Unsupported if outside the subset"""
+        try:
+            return self.table(fi, args, limit=limit)
+        except (Unsupported, NeedAtom):
+            raise
+        except RecursionError as e:
+            raise Unsupported(f"recursion while interpreting {fi.short}") from e
+        except (TypeError, ValueError, KeyError, IndexError, AttributeError, ZeroDivisionError) as e:
+            raise Unsupported(f"{fi.short}: operation outside the interpreter's model ({type(e).__name__}: {str(e)[:80]})") from e
+
+    # ---- values
+    def concrete(self, v):
+        if isinstance(v, Sym) and v.path in self.fixed and v.path not in self.stores:
+            return self.fixed[v.path]
+        return super().concrete(v)
+
+    def truth(self, v):
+        v = self.concrete(v)
+        if isinstance(v, (Frame, Obj, AV, Mark)):
+            return True
+        return super().truth(v)
+
+    def _fix(self, v):
+        if isinstance(v, Sym) and v.path in self.fixed and v.path not in self.stores:
+            return self.fixed[v.path]
+        return v
+
+    def ev_Name(self, n, env):
+        return self._fix(super().ev_Name(n, env))
+
+    def _with_base(self, base, env, fn):
+        old = env.get("__base__", self)
+        env["__base__"] = base
+        try:
+            return fn(ast.Name(id="__base__", ctx=ast.Load()))
+        finally:
+            if old is self:
+                env.pop("__base__", None)
+            else:
+                env["__base__"] = old
+
+    def ev_Attribute(self, n, env):
+        base = self.ev(n.value, env)
+        return self.attr_of(base, n.attr, n, env)
+
+    def attr_of(self, base, attr, n, env):
+        if isinstance(base, Obj):
+            if attr in base.attrs:
+                return base.attrs[attr]
+            if base.default is not None:
+                v = base.default(attr)
+                if v is not NotImplemented:
+                    base.attrs[attr] = v
+                    return v
+            if base.cls and self.pm.find_method(base.cls, attr):
+                return ("bound", base, attr)
+            return self._fix(Sym(f"{base.name}.{attr}"))
+        if isinstance(base, TypeOf):
+            o = base.obj
+            if attr == "model_fields" and isinstance(o, Obj) and o.cls:
+                return {f: None for f in self.pm.all_fields(o.cls)}
+            if attr == "__name__" and isinstance(o, Obj) and o.cls:
+                return o.cls
+            raise Unsupported(f"type(...).{attr}")
+        if isinstance(base, MSet):
+            return ("method", base, attr)
+        if isinstance(base, Frame):
+            if attr == "shape":
+                return (len(base.rows), len(base.cols))
+            if attr == "height":
+                return len(base.rows)
+            if attr == "width":
+                return len(base.cols)
+            if attr == "columns":
+                return list(base.cols)
+            return ("framemethod", base, attr)
+        if isinstance(base, (list, tuple, dict, str, Mark, AV, int, float, _Fr)) and not (isinstance(base, tuple) and len(base) == 2 and base[0] in ("class", "func")):
+            if isinstance(base, dict) and attr in ("get", "items", "keys", "values", "copy", "update"):
+                return ("dictmethod", base, attr)
+            return ("method", base, attr)
+        node = ast.Attribute(value=None, attr=attr, ctx=ast.Load())
+
+        def go(nm):
+            node.value = nm
+            return super(Scen, self).ev_Attribute(node, env)
+        return self._fix(self._with_base(base, env, go))
+
+    def ev_Subscript(self, n, env):
+        base = self.concrete(self.ev(n.value, env))
+        if isinstance(base, Frame):
+            if isinstance(n.slice, ast.Slice):
+                lo = self.concrete(self.ev(n.slice.lower, env)) if n.slice.lower else None
+                hi = self.concrete(self.ev(n.slice.upper, env)) if n.slice.upper else None
+                st = self.concrete(self.ev(n.slice.step, env)) if n.slice.step else None
+                if any(isinstance(x, Sym) for x in (lo, hi, st)):
+                    raise Unsupported("frame slice with undetermined bounds: " + unparse(n))
+                return base.derive(rows=base.rows[lo:hi:st])
+            k = self.concrete(self.ev(n.slice, env))
+            if isinstance(k, tuple) and len(k) == 2 and all(isinstance(x, int) for x in k):
+                return base.value(base.rows[k[0]], base.cols[k[1]])
+            raise Unsupported("frame subscript " + unparse(n))
+
+        def go(nm):
+            return super(Scen, self).ev_Subscript(ast.Subscript(value=nm, slice=n.slice, ctx=ast.Load()), env)
+        return self._with_base(base, env, go)
+
+    def ev_NamedExpr(self, n, env):
+        v = self.ev(n.value, env)
+        e = env
+        while e is not None:
+            e[n.target.id] = v
+            e = e.get("__outer__")
+        return v
+
+    def ev_Set(self, n, env):
+        return MSet([self.ev(e, env) for e in n.elts], self.set_order)
+
+    def ev_Starred(self, n, env):
+        raise Unsupported("starred expression " + unparse(n))
+
+    def _elts(self, elts, env):
+        out = []
+        for e in elts:
+            if isinstance(e, ast.Starred):
+                v = self.concrete(self.ev(e.value, env))
+                if isinstance(v, MSet):
+                    v = v.seq()
+                if isinstance(v, (list, tuple, range)):
+                    out.extend(v)
+                else:
+                    out.append(Splat(v))
+            else:
+                out.append(self.ev(e, env))
+        return out
+
+    def ev_List(self, n, env):
+        return self._elts(n.elts, env)
+
+    def ev_Tuple(self, n, env):
+        return tuple(self._elts(n.elts, env))
+
+    # ---- comprehensions (concrete when the iterables are)
+    def _comp(self, gens, env, emit):
+        def rec(i, e):
+            if i == len(gens):
+                emit(e)
+                return True
+            g = gens[i]
+            it = self.concrete(self.ev(g.iter, e))
+            if isinstance(it, dict):
+                it = list(it)
+            if isinstance(it, MSet):
+                it = it.seq()
+            if not isinstance(it, (list, tuple, range)):
+                return False
+            for x in list(it):
+                e2 = dict(e)
+                e2["__outer__"] = e
+                self.assign(g.target, x, e2)
+                if all(self.truth(self.ev(c, e2)) for c in g.ifs):
+                    if not rec(i + 1, e2):
+                        return False
+            return True
+        return rec(0, env)
+
+    def ev_ListComp(self, n, env):
+        out = []
+        if self._comp(n.generators, env, lambda e: out.append(self.ev(n.elt, e))):
+            return out
+        return super().ev_ListComp(n, env)
+
+    ev_GeneratorExp = ev_ListComp
+
+    def ev_SetComp(self, n, env):
+        out = []
+        if self._comp(n.generators, env, lambda e: out.append(self.ev(n.elt, e))):
+            return MSet(out, self.set_order)
+        return Sym(f"{{{unparse(n)[:40]}}}")
+
+    def ev_DictComp(self, n, env):
+        out = {}
+
+        def emit(e):
+            out[self.concrete(self.ev(n.key, e))] = self.ev(n.value, e)
+        if self._comp(n.generators, env, emit):
+            return out
+        return super().ev_DictComp(n, env)
+
+    # ---- assignment to mock objects
+    def assign(self, t, v, env):
+        if isinstance(t, ast.Attribute):
+            base = self.ev(t.value, env)
+            if isinstance(base, Obj):
+                base.attrs[t.attr] = v
+                self.trace.append(Mark("store", base, [t.attr, v], {}))
+                return
+
+            def go(nm):
+                return super(Scen, self).assign(ast.Attribute(value=nm, attr=t.attr, ctx=ast.Store()), v, env)
+            return self._with_base(base, env, go)
+        return super().assign(t, v, env)
+
+    def stmt(self, s, env):
+        if isinstance(s, ast.For):
+            it = self.concrete(self.ev(s.iter, env))
+            if isinstance(it, MSet):
+                it = it.seq()
+            elif isinstance(it, Mark):
+                raise Unsupported("iteration over the result of an uninterpreted call: " + unparse(s.iter)[:60])
+            key = f"__iter{id(s)}__"
+            env[key] = it
+            try:
+                return super().stmt(ast.For(target=s.target, iter=ast.Name(id=key, ctx=ast.Load()), body=s.body, orelse=[], lineno=getattr(s, "lineno", 0)), env)
+            finally:
+                env.pop(key, None)
+        if isinstance(s, ast.Delete):
+            for t in s.targets:
+                if isinstance(t, ast.Subscript):
+                    base = self.concrete(self.ev(t.value, env))
+                    k = self.concrete(self.ev(t.slice, env))
+                    if isinstance(base, (list, dict)) and not isinstance(k, Sym):
+                        del base[k]
+                        continue
+                raise Unsupported("del " + unparse(t))
+            return
+        if isinstance(s, ast.While):
+            n = 0
+            from ..dtab import _Break, _Continue
+            try:
+                while self.truth(self.ev(s.test, env)):
+                    n += 1
+                    if n > 200:
+                        raise Unsupported("while loop does not terminate on the scenario")
+                    try:
+                        self.block(s.body, env)
+                    except _Continue:
+                        continue
+            except _Break:
+                pass
+            return
+        return super().stmt(s, env)
+
+    # ---- calls
+    def _args(self, n, env):
+        args = []
+        for a in n.args:
+            if isinstance(a, ast.Starred):
+                v = self.concrete(self.ev(a.value, env))
+                if not isinstance(v, (list, tuple)):
+                    raise Unsupported("*args of an undetermined value: " + unparse(n)[:60])
+                args.extend(v)
+            else:
+                args.append(self.ev(a, env))
+        kw = {}
+        for k in n.keywords:
+            if k.arg:
+                kw[k.arg] = self.ev(k.value, env)
+            else:
+                d = self.concrete(self.ev(k.value, env))
+                if not isinstance(d, dict):
+                    raise Unsupported("**kwargs of an undetermined value: " + unparse(n)[:60])
+                kw.update(d)
+        return args, kw
+
+    def mark(self, name, recv, args, kw):
+        m = Mark(name, recv, args, kw)
+        self.trace.append(m)
+        kind = self.markers.get(name)
+        if callable(kind):
+            return kind(m)
+        if kind == "self":
+            return recv
+        return [m] if kind == "list" else m
+
+    def construct(self, cname, args, kw, n):
+        ci = self.pm.classes.get(cname)
+        if args and ci is not None:
+            names = [f for f in self.pm.all_fields(cname)]
+            for f, v in zip(names, args):
+                kw.setdefault(f, v)
+        if cname == "BroadcastValue":
+            kw["value"] = nested_list_form(self.concrete(kw.get("value")))
+            kw.setdefault("dimension", None)
+        o = Obj(f"{cname}#{len(self.trace)}", cls=cname)
+        o.attrs = dict(kw)
+        self.trace.append(Mark("new", o, [], kw))
+        return o
+
+    def call_closure(self, clo, args, n, env):
+        _, node, cenv = clo
+        e2 = dict(cenv)
+        a = node.args
+        ps = [x.arg for x in list(a.posonlyargs) + list(a.args)]
+        dflt = dict(zip(ps[len(ps) - len(a.defaults):], a.defaults))
+        kw = {}
+        if isinstance(n, ast.Call):
+            for k in n.keywords:
+                if k.arg:
+                    kw[k.arg] = self.ev(k.value, env)
+        for i, p in enumerate(ps):
+            if i < len(args):
+                e2[p] = args[i]
+            elif p in kw:
+                e2[p] = kw[p]
+            elif p in dflt:
+                e2[p] = self.ev(dflt[p], cenv)
+        for p, d in zip(a.kwonlyargs, a.kw_defaults):
+            e2[p.arg] = kw[p.arg] if p.arg in kw else (self.ev(d, cenv) if d is not None else Sym(p.arg))
+        if isinstance(node, ast.Lambda):
+            return self.ev(node.body, e2)
+        from ..dtab import _Return
+        try:
+            self.block(node.body, e2)
+        except _Return as r:
+            return r.v
+        return None
+
+    def _invoke(self, fi, recv, args, kw, n, env):
+        if fi.is_static or fi.is_classmethod:
+            a = fi.node.args
+            ps = [x.arg for x in list(a.posonlyargs) + list(a.args)]
+            if fi.is_classmethod and ps:
+                ps = ps[1:]
+            bound = dict(zip(ps, args))
+            bound.update(kw)
+            return self.call_fi(fi, bound)
+        return self.invoke(fi, recv, args, n, env, kw)
+
+    _NATIVE = {"accumulate", "chain", "enumerate", "zip", "sum", "sorted", "reversed", "list", "tuple", "set", "frozenset", "abs", "round", "divmod", "dict", "min", "max", "float", "int", "str", "len", "range", "any", "all", "bool", "repr"}
+
+    def ev_Call(self, n, env):
+        f = n.func
+        if isinstance(f, ast.Name):
+            nm = f.id
+            tgt = env.get(nm)
+            if isinstance(tgt, (Mark, Sym)) or (isinstance(tgt, tuple) and len(tgt) == 2 and tgt[0] in ("class", "func")):
+                args, kw = self._args(n, env)
+                if isinstance(tgt, tuple):
+                    return self.construct(tgt[1].name, args, kw, n) if tgt[0] == "class" else self._invoke(tgt[1], None, args, kw, n, env)
+                return self.mark("()", tgt, args, kw)
+            if nm == "type" and len(n.args) == 1 and nm not in env:
+                return TypeOf(self.concrete(self.ev(n.args[0], env)))
+            if tgt is None and nm not in env:
+                fi = env.get("__fi__")
+                r = self.pm.resolve(fi.module, nm) if fi else None
+                if r and r[0] == "class":
+                    args, kw = self._args(n, env)
+                    return self.construct(r[1].name, args, kw, n)
+                if nm in self.markers:
+                    args, kw = self._args(n, env)
+                    return self.mark(nm, None, args, kw)
+                if r and r[0] == "func":
+                    args, kw = self._args(n, env)
+                    return self._invoke(r[1], None, args, kw, n, env)
+                if nm in self._NATIVE:
+                    args, kw = self._args(n, env)
+                    args = [self.concrete(a) for a in args]
+                    got = self.native(nm, args, kw, n)
+                    if got is not NotImplemented:
+                        return got
+                    return self._super_call(n, env, args, kw)       # dtab's symbolic treatment, without re-evaluating the arguments
+                if nm == "isinstance" and len(n.args) == 2:
+                    v = self.concrete(self.ev(n.args[0], env))
+                    names = [x.id if isinstance(x, ast.Name) else x.attr for x in ast.walk(n.args[1]) if isinstance(x, (ast.Name, ast.Attribute))]
+                    if isinstance(v, Frame):
+                        return "DataFrame" in names
+                    if isinstance(v, Obj):
+                        return bool(v.cls) and any(c in names for c in self.pm.mro(v.cls))
+                    if isinstance(v, (AV, Mark)):
+                        raise Unsupported("isinstance of an opaque mock value")
+                    if isinstance(v, _Fr):
+                        return any(x in names for x in ("float", "int"))
+                if nm == "getattr" and len(n.args) in (2, 3):
+                    o = self.concrete(self.ev(n.args[0], env))
+                    k = self.concrete(self.ev(n.args[1], env))
+                    if isinstance(o, Obj) and isinstance(k, str):
+                        v = self.attr_of(o, k, n, env)
+                        if isinstance(v, Sym) and len(n.args) == 3 and o.default is None and k not in o.attrs:
+                            return self.ev(n.args[2], env)
+                        return v
+                    if isinstance(o, Sym) and isinstance(k, str):
+                        return self.attr_of(o, k, n, env)
+                if nm == "setattr" and len(n.args) == 3:
+                    o = self.concrete(self.ev(n.args[0], env))
+                    k = self.concrete(self.ev(n.args[1], env))
+                    if isinstance(o, Obj) and isinstance(k, str):
+                        v = self.ev(n.args[2], env)
+                        o.attrs[k] = v
+                        self.trace.append(Mark("store", o, [k, v], {}))
+                        return None
+                if nm == "hasattr" and len(n.args) == 2:
+                    o = self.concrete(self.ev(n.args[0], env))
+                    k = self.concrete(self.ev(n.args[1], env))
+                    if isinstance(o, Obj) and isinstance(k, str):
+                        return k in o.attrs or o.default is not None or bool(o.cls and (self.pm.field_decl(o.cls, k) is not None or self.pm.find_method(o.cls, k)))
+                    if isinstance(o, (Frame, list, tuple, dict, str, int, float, _Fr)) and isinstance(k, str):
+                        return k in ("columns", "shape", "height", "width") if isinstance(o, Frame) else hasattr(o, k)
+                if nm in ("deepcopy", "copy"):
+                    import copy
+                    v = self.concrete(self.ev(n.args[0], env))
+                    if not isinstance(v, Sym):
+                        return copy.deepcopy(v) if nm == "deepcopy" else copy.copy(v)
+            return super().ev_Call(n, env)
+        if isinstance(f, ast.Attribute):
+            m = f.attr
+            base = self.ev(f.value, env)
+            return self.call_method(base, m, n, env)
+        return super().ev_Call(n, env)
+
+    def _super_call(self, n, env, args, kw):
+        names = []
+        call = ast.Call(func=n.func, args=[], keywords=[])
+        for i, a in enumerate(args):
+            k = f"__arg{len(env)}_{i}__"
+            env[k] = a
+            names.append(k)
+            call.args.append(ast.Name(id=k, ctx=ast.Load()))
+        for kk, v in kw.items():
+            k = f"__kw{len(env)}_{kk}__"
+            env[k] = v
+            names.append(k)
+            call.keywords.append(ast.keyword(arg=kk, value=ast.Name(id=k, ctx=ast.Load())))
+        try:
+            return super().ev_Call(call, env)
+        finally:
+            for k in names:
+                env.pop(k, None)
+
+    def native(self, nm, args, kw, n):
+        if any(isinstance(a, Sym) for a in args) or any(isinstance(v, Sym) for v in kw.values()):
+            return NotImplemented
+        if nm == "len" and args and isinstance(args[0], (list, tuple, dict, str, range, Frame)):
+            return len(args[0])
+        if nm in ("accumulate", "chain"):
+            its = [list(a) if isinstance(a, (list, tuple, range)) else a.seq() if isinstance(a, MSet) else None for a in args]
+            if any(i is None for i in its) or (nm == "accumulate" and (len(args) != 1 or set(kw) - {"initial"})):
+                return NotImplemented
+            if nm == "chain":
+                return [x for i in its for x in i]
+            if any(not isinstance(x, (int, float, _Fr)) for x in its[0]):
+                return NotImplemented
+            out, acc = [], kw.get("initial")
+            if acc is not None:
+                out.append(acc)
+            for x in its[0]:
+                acc = x if acc is None else acc + x
+                out.append(acc)
+            return out
+        if nm in ("list", "tuple", "set", "frozenset", "sorted", "reversed", "enumerate", "zip", "sum", "any", "all", "min", "max") and args:
+            its = [list(a) if isinstance(a, (list, tuple, range, dict)) else a.seq() if isinstance(a, MSet) else None for a in args]
+            if nm in ("min", "max") and len(args) > 1:
+                if any(isinstance(a, (Frame, Obj, AV, Mark, list, dict)) for a in args):
+                    return NotImplemented
+                return (min if nm == "min" else max)(args)
+            if nm == "sum" and its[0] is not None:
+                if any(isinstance(x, (Sym, AV, Mark, Obj)) for x in its[0]):
+                    return NotImplemented
+                return sum(its[0], *args[1:])
+            if nm == "zip":
+                if any(i is None for i in its):
+                    return NotImplemented
+                if kw.get("strict") and len({len(i) for i in its}) > 1:
+                    raise _Raise("ValueError zip(strict=True) of unequal lengths")
+                return [tuple(x) for x in zip(*its)]
+            if its[0] is None:
+                return NotImplemented
+            if nm == "enumerate":
+                return [tuple(x) for x in enumerate(its[0], *(args[1:2] or [kw.get("start", 0)]))]
+            if nm == "list":
+                return list(its[0])
+            if nm in ("tuple", "set", "frozenset"):
+                return tuple(its[0]) if nm == "tuple" else MSet(its[0], self.set_order)
+            if nm == "reversed":
+                return list(reversed(its[0]))
+            if nm == "sorted":
+                if "key" in kw or any(isinstance(x, (Sym, AV, Mark, Obj)) for x in its[0]):
+                    return NotImplemented
+                return sorted(its[0], reverse=bool(kw.get("reverse", False)))
+            if nm in ("any", "all"):
+                return (any if nm == "any" else all)(self.truth(x) for x in its[0])
+        if nm in ("list", "tuple", "dict") and not args:
+            return {"list": [], "tuple": (), "dict": dict(kw)}[nm]
+        if nm in ("set", "frozenset") and not args:
+            return MSet((), self.set_order)
+        if nm == "len" and args and isinstance(args[0], MSet):
+            return len(args[0])
+        if nm == "dict" and args and isinstance(args[0], dict):
+            return {**args[0], **kw}
+        if nm == "float" and args and isinstance(args[0], (int, float, _Fr)):
+            return args[0] if isinstance(args[0], _Fr) else float(args[0])
+        if nm == "int" and args and isinstance(args[0], (int, float, _Fr, str)):
+            return int(args[0])
+        if nm in ("abs", "round") and args and isinstance(args[0], (int, float, _Fr)):
+            return abs(args[0]) if nm == "abs" else round(*args)
+        if nm == "str" and args and isinstance(args[0], (str, int, float, _Fr, AV, Mark)) or nm == "str" and args and args[0] is None:
+            return str(args[0])
+        if nm == "bool" and args:
+            return self.truth(args[0])
+        if nm == "range" and all(isinstance(a, int) for a in args):
+            return range(*args)
+        return NotImplemented
+
+    def call_method(self, base, m, n, env):
+        base = self._fix(base)
+        if isinstance(base, tuple) and len(base) == 2 and base[0] == "class":
+            got = self.pm.find_method(base[1].name, m)
+            args, kw = self._args(n, env)
+            if m in self.markers:
+                return self.mark(m, base[1].name, args, kw)
+            if got is not None and (got.is_static or got.is_classmethod):
+                return self._invoke(got, None, args, kw, n, env)
+            raise Unsupported("call on class " + unparse(n)[:60])
+        if m in self.markers:
+            args, kw = self._args(n, env)
+            return self.mark(m, base, args, kw)
+        if isinstance(base, Frame):
+            args, kw = self._args(n, env)
+            args = [self.concrete(a) for a in args]
+            return self.frame_call(base, m, args, kw, n)
+        if isinstance(base, MSet):
+            args, kw = self._args(n, env)
+            cargs = [self.concrete(a) for a in args]
+            if m in ("add", "update", "discard", "remove", "copy") and not any(isinstance(a, Sym) for a in cargs):
+                try:
+                    return getattr(base, m)(*cargs)
+                except KeyError as e:
+                    raise _Raise("KeyError " + str(e))
+            if m in ("union", "difference", "intersection") and len(cargs) == 1 and isinstance(cargs[0], (MSet, list, tuple)):
+                other = list(cargs[0])
+                items = {"union": base.items + [x for x in other if x not in base.items], "difference": [x for x in base.items if x not in other],
+                         "intersection": [x for x in base.items if x in other]}[m]
+                return MSet(items, base.order)
+            raise Unsupported(f"set method {m}")
+        if isinstance(base, Obj):
+            args, kw = self._args(n, env)
+            if m in base.attrs and isinstance(base.attrs[m], tuple) and base.attrs[m][:1] == ("closure",):
+                return self.call_closure(base.attrs[m], args, n, env)
+            if m in ("model_copy", "copy"):
+                import copy
+                o = copy.copy(base)
+                o.attrs = copy.deepcopy(base.attrs) if kw.get("deep") else dict(base.attrs)
+                o.name = base.name + "'"
+                upd = self.concrete(kw.get("update")) if "update" in kw else None
+                if isinstance(upd, dict):
+                    o.attrs.update(upd)
+                return o
+            got = self.pm.find_method(base.cls, m) if base.cls else None
+            if got is not None and m not in self.opaque_calls:
+                return self._invoke(got, base, args, kw, n, env)
+            raise Unsupported(f"method {m} of mock object {base!r}")
+        if isinstance(base, (list, dict, str, tuple)) and not (isinstance(base, tuple) and base and base[0] in ("dictmethod", "strmethod", "closure", "bound", "method", "framemethod")):
+            args, kw = self._args(n, env)
+            cargs = [self.concrete(a) for a in args]
+            if isinstance(base, list) and m == "extend" and len(cargs) == 1:
+                if isinstance(cargs[0], (list, tuple, range)):
+                    base.extend(cargs[0])
+                else:
+                    base.append(Splat(cargs[0]))
+                return None
+            if isinstance(base, str) and m == "join" and len(cargs) == 1 and isinstance(cargs[0], (list, tuple)):
+                if all(isinstance(x, str) for x in cargs[0]):
+                    return base.join(cargs[0])
+                return Mark("join", base, list(cargs[0]), {})
+            if isinstance(base, dict) and m in ("get", "pop", "setdefault") and cargs and isinstance(cargs[0], Sym):
+                cargs[0] = cargs[0].path
+            if isinstance(base, tuple) and m in ("index", "count"):
+                return getattr(base, m)(*cargs)
+            if hasattr(base, m) and not any(isinstance(a, Sym) for a in cargs[:1] if m in ("index", "count", "remove")):
+                if m == "index" and isinstance(base, list):
+                    try:
+                        return base.index(*cargs)
+                    except ValueError:
+                        raise _Raise("ValueError not in list")
+                if m == "copy" and isinstance(base, (list, dict)):
+                    return base.copy()
+                if m in ("items", "keys", "values") and isinstance(base, dict):
+                    return list(getattr(base, m)())
+                if m == "update" and isinstance(base, dict):
+                    a0 = cargs[0] if cargs else {}
+                    if isinstance(a0, dict):
+                        base.update(a0, **kw)
+                        return None
+                    raise Unsupported("dict.update with an undetermined value")
+                try:
+                    return getattr(base, m)(*cargs, **{k: self.concrete(v) for k, v in kw.items()})
+                except KeyError as e:
+                    raise _Raise("KeyError " + str(e))
+                except (IndexError, ValueError) as e:
+                    raise _Raise(type(e).__name__)
+        node = ast.Call(func=ast.Attribute(value=None, attr=m, ctx=ast.Load()), args=n.args, keywords=n.keywords)
+        if isinstance(base, Sym) and m in self.frame_passthrough:
+            args, kw = self._args(n, env)
+            fr = [a for a in args + list(kw.values()) if isinstance(self.concrete(a), Frame)]
+            if fr:
+                src = self.concrete(fr[-1] if m == "restore_page_context" and len(fr) > 1 else fr[0])
+                out = src.derive(tag=f"{m}({src.tag})")
+                self.trace.append(Mark(m, base, args, kw))
+                return out
+
+        def go(nm):
+            node.func.value = nm
+            return super(Scen, self).ev_Call(node, env)
+        return self._fix(self._with_base(base, env, go))
+
+    def frame_call(self, fr, m, args, kw, n):
+        if any(isinstance(a, Sym) for a in args) or any(isinstance(self.concrete(v), Sym) for v in kw.values()):
+            raise Unsupported(f"frame.{m} with undetermined arguments: " + unparse(n)[:60])
+        kw = {k: self.concrete(v) for k, v in kw.items()}
+        if m == "slice":
+            off = args[0] if args else kw.get("offset", 0)
+            ln = args[1] if len(args) > 1 else kw.get("length")
+            if off < 0:
+                off = max(0, len(fr.rows) + off)
+            return fr.derive(rows=fr.rows[off:] if ln is None else fr.rows[off:off + max(0, ln)])
+        if m in ("head", "limit"):
+            k = args[0] if args else kw.get("n", 5)
+            return fr.derive(rows=fr.rows[:k] if k >= 0 else fr.rows[:len(fr.rows) + k])
+        if m == "tail":
+            k = args[0] if args else kw.get("n", 5)
+            return fr.derive(rows=(fr.rows[-k:] if k else []) if k >= 0 else fr.rows[-k:])
+        if m == "row":
+            i = args[0] if args else kw.get("index")
+            if not isinstance(i, int) or not (-len(fr.rows) <= i < len(fr.rows)):
+                raise _Raise("OutOfBoundsError")
+            return fr.row(i)
+        if m in ("rows", "iter_rows"):
+            return [fr.row(i) for i in range(len(fr.rows))]
+        if m == "item" and len(args) == 2:
+            return fr.value(fr.rows[args[0]], fr.cols[args[1]] if isinstance(args[1], int) else args[1])
+        if m in ("clone", "lazy", "collect", "rechunk"):
+            return fr.derive()
+        if m == "fill_null" and (args or "value" in kw):
+            v = args[0] if args else kw["value"]
+            kind = "str" if isinstance(v, str) else "num" if isinstance(v, (int, float)) and not isinstance(v, bool) else None
+            if kind is None:
+                raise Unsupported("fill_null value " + repr(v)[:30])
+            filled = dict(fr.filled)
+            for c in fr.cols:
+                if fr.dtypes.get(c, "str") == kind and c not in filled:
+                    filled[c] = v           # polars fills only the columns whose dtype accepts the value
+            return fr.derive(filled=filled)
+        if m == "select":
+            cols = list(args[0]) if args and isinstance(args[0], (list, tuple)) else list(args)
+            if not all(isinstance(c, str) and c in fr.cols for c in cols):
+                raise Unsupported("frame.select " + unparse(n)[:60])
+            return fr.derive(cols=cols)
+        if m == "drop":
+            cols = list(args[0]) if args and isinstance(args[0], (list, tuple)) else list(args)
+            return fr.derive(cols=[c for c in fr.cols if c not in cols])
+        if m == "get_column_index" and args:
+            if args[0] not in fr.cols:
+                raise _Raise("ColumnNotFoundError")
+            return fr.cols.index(args[0])
+        if m == "is_empty":
+            return len(fr.rows) == 0
+        raise Unsupported(f"frame method {m} is not modelled")
